@@ -215,6 +215,16 @@ def run(ctx):
                     fails.append({"why": "daemon refuses its own credential (%s)" % vn})
         b.stop()
     a.stop()
+    # the statement holds whatever other clients do at the same time: genuine decodes race with altered copies
+    import conc
+    probs, rep, total = conc.forgery_race(ctx, exe, seconds=20.0 if ctx.thorough else 5.0, nthreads=2)
+    dist["concurrent-forgery-attempts"] = total
+    ctx.count(("forgery-race", total))
+    ctx.log("forgery race: %d decodes, %d problems" % (total, len(probs)))
+    for pb in probs:
+        fails.append(dict(pb, kind="race"))
+    if rep.strip():
+        ctx.violation("sanitizer report from the daemon during the concurrent forgery phase", {"report": rep[:3000]}, found_input=False)
     for k in list(dist)[:8]:
         ctx.sample({"edit_class": k, "count": dist[k]}, limit=10)
     ctx.cov["input_distribution"] = dist
@@ -232,3 +242,6 @@ def run(ctx):
     if not fails and not mism and not proved:
         ctx.violation("proof obligation no longer checks: %s" % getattr(ctx, "broken_obligation", "?"),
                       {"obligation": getattr(ctx, "broken_obligation", "?"), "log": ctx.proof_log[-3000:]}, found_input=False)
+
+
+MANIFEST["level"] = (MANIFEST["level"][0], MANIFEST["level"][1] + ' Also a concurrent phase: genuine decodes race, on a multi-threaded daemon, with altered copies that keep the genuine MAC field (none may ever be accepted; tools/conc.py).', MANIFEST["level"][2])
